@@ -510,3 +510,39 @@ def extlink_step(scheme, label, where, ci) -> bool:
 def replay_extlink(scheme, label, where, ci):
     doc, bad, msg = _extlink_bad(scheme, label, where, ci)
     return ("parse(" + repr(doc) + ")", bad, msg)
+
+
+# ---------------------------------------------------------------- `|` preceded only by blanks on its line starts a new cell
+def wsp_cell_step(open_kind: int, txt: str) -> bool:
+    """An indented cell line ` | b`: the blank token has set wsp_beginning_of_line; where no preformatted block was opened for
+    the blank (tables inside <p> / <ref>) the open cell is still on top when `|` arrives - it must start a new cell, not be
+    taken for the attribute separator of the open one."""
+    root, table, row = build(True, False, False, 0, open_kind, False, txt, False)
+    ctx.wsp_beginning_of_line = True
+    first = ctx.parser_stack[-1]
+    table_cell_fn(ctx, "|")
+    top = ctx.parser_stack[-1]
+    return top is not first and top.kind == K.TABLE_CELL and len(row.children) == 2 and row.children[0] is first and first.children == [txt] and not first.attrs and not top.attrs
+
+
+def replay_wsp_cell(open_kind, txt):
+    w = Wtp(quiet=True, quiet_output=True)
+    lead = "!" if open_kind == 2 else "|"
+    for wrap in ("<p>\n%s\n</p>", "<ref>\n%s\n</ref>", "%s"):
+        doc = wrap % ("{|\n|-\n " + lead + " " + txt.strip() + "\n | b\n | c\n|}")
+        w.start_page("T")
+        root = w.parse(doc)
+        rows = []
+
+        def walk(n):
+            if isinstance(n, WikiNode):
+                if n.kind == K.TABLE_ROW:
+                    rows.append([(c.kind.name, dict(c.attrs)) for c in n.children if isinstance(c, WikiNode)])
+                for c in n.children:
+                    walk(c)
+
+        walk(root)
+        want = [[("TABLE_HEADER_CELL" if open_kind == 2 else "TABLE_CELL", {}), ("TABLE_CELL", {}), ("TABLE_CELL", {})]]
+        if rows != want:
+            return ("parse(" + repr(doc) + ")", True, f"rows {rows}, written: three cells without attributes")
+    return ("indented cell lines", False, "")
